@@ -32,8 +32,4 @@ ClassTagPayloads1 == [
 ClassSincePayloads1 == [
   EncryptRequestPayload |-> <<12, 20>>, EncryptResponsePayload |-> <<12, 20>>,
   DecryptRequestPayload |-> <<12, 20>>, DecryptResponsePayload |-> <<12, 20>> ]
-\* operation enumeration name of each payload class (for batch items)
-OperationOf1 == [
-  EncryptRequestPayload |-> "ENCRYPT", EncryptResponsePayload |-> "ENCRYPT",
-  DecryptRequestPayload |-> "DECRYPT", DecryptResponsePayload |-> "DECRYPT" ]
 =============================================================================
